@@ -280,6 +280,33 @@ fn read_cursor(cur: &str, fast: bool) -> Option<CurInfo> {
   }
 }
 
+/// does the sort cursor carry an `f64` value whose JSON text is not reproduced by parsing and
+/// printing it again with serde_json (the cursor's own codec)?  Evidence on the implementation's
+/// side only: the same crate the code uses, no model involved.
+fn f64_value_changed_by_json(cur: &str) -> bool {
+  if !cur.is_ascii() || cur.len() % 2 != 0 {
+    return false;
+  }
+  let Ok(text) = String::from_utf8(unhex(cur)) else { return false };
+  let pat = "{\"t\":\"f64\",\"v\":";
+  let mut rest = text.as_str();
+  while let Some(at) = rest.find(pat) {
+    let tail = &rest[at + pat.len()..];
+    let end = tail.find('}').unwrap_or(tail.len());
+    let lex = &tail[..end];
+    match serde_json::from_str::<f64>(lex) {
+      Ok(v) => {
+        if serde_json::to_string(&v).ok().as_deref() != Some(lex) {
+          return true;
+        }
+      }
+      Err(_) => return true,
+    }
+    rest = &tail[end..];
+  }
+  false
+}
+
 // ---------------------------------------------------------------------------------------------
 // cursor mutations (ASCII only)
 
@@ -529,7 +556,7 @@ fn gen_doc(rng: &mut Rng, id: String, vocab: usize) -> Value {
   match rng.below(7) {
     0 => {}
     1 => d["x"] = json!([*rng.pick(&F64S), *rng.pick(&F64S)]),
-    2 => d["x"] = json!((rng.f64() - 0.3) * 1000.0),
+    2 | 3 => d["x"] = json!((rng.f64() - 0.3) * 1000.0),
     _ => {
       let k = 2 + rng.below(F64S.len() - 1);
       d["x"] = json!(*rng.pick(&F64S[..k]))
@@ -597,9 +624,11 @@ fn gen_walk(rng: &mut Rng) -> Value {
     2 => json!({"type": "term", "field": "body", "value": WORDS[rng.below(vocab)]}),
     3 => json!(WORDS[rng.below(vocab)]),
     _ => {
-      let k = 2 + rng.below(3);
-      let ws: Vec<&str> = (0..k).map(|_| WORDS[rng.below(vocab)]).collect();
-      json!(ws.join(" "))
+      // distinct words (a repeated word in a query string trips a debug assertion — C16's finding)
+      let mut ws: Vec<&str> = WORDS[..vocab].to_vec();
+      rng.shuffle(&mut ws);
+      let k = (2 + rng.below(3)).min(ws.len());
+      json!(ws[..k].join(" "))
     }
   };
   let sort = gen_sort(rng);
@@ -678,8 +707,15 @@ fn canon_segs(v: &Value) -> Value {
 }
 
 /// rank form of a value of a decoded cursor state (model JSON) for the model's `page`
-fn state_part(v: &Value) -> Option<Value> {
-  match v["t"].as_str()? {
+fn state_part(v: &Value, kind: u8) -> Option<Value> {
+  // a value whose type differs from the column's compares `Equal` in `SortKeyPart::cmp`; the rank
+  // abstraction cannot express that, such cursors are not paged by the model
+  let t = v["t"].as_str()?;
+  let fits = matches!((t, kind), ("score", 0) | ("str", 1) | ("i64", 2) | ("f64", 3) | ("missing", _));
+  if !fits {
+    return None;
+  }
+  match t {
     "score" => Some(json!(f32_rank(v["v"].as_u64()? as u32))),
     "i64" => Some(json!(v["v"].as_i64()?)),
     "f64" => Some(json!(f64_rank(v["lex"].as_str()?.parse::<f64>().ok()?))),
@@ -807,8 +843,12 @@ impl C11 {
       s.count("walks_with_2plus_pages");
     }
     if let Some((at, o)) = &w.error {
+      // the cursor that was sent with the failing request
+      let sent = if *at > 0 { w.pages[*at - 1].next.clone() } else { None };
+      let f64_changed = sent.as_deref().map(|c| !fast && f64_value_changed_by_json(c)).unwrap_or(false);
       let sig = match o {
         Out::Panic(_) => "walk.page-panic",
+        _ if f64_changed => "walk.page-error.f64-sort-value-changed-by-cursor-json",
         _ => "walk.page-error",
       };
       s.fail(sig, "a page of the walk failed although the index did not change", case, json!({"page": at, "outcome": o.to_json(), "pages_before": w.pages.iter().map(|p| p.ids.clone()).collect::<Vec<_>>()}));
@@ -919,6 +959,10 @@ impl C11 {
     }
     s.add("real_cursors_decoded_and_reencoded", n_cursors);
 
+    if w.error.is_some() {
+      s.count("walk_failed.mutations_and_replays_skipped");
+      return;
+    }
     // ---- page 2 material ----
     let Some(c1) = w.pages.first().and_then(|p| p.next.clone()) else {
       s.count("single_page_walk");
@@ -967,7 +1011,7 @@ impl C11 {
             }
           } else {
             // another key: ask the model's page function
-            let parts: Option<Vec<Value>> = st["values"].as_array().map(|a| a.iter().map(state_part).collect()).unwrap_or(None);
+            let parts: Option<Vec<Value>> = st["values"].as_array().filter(|a| a.len() == plan.len()).map(|a| a.iter().zip(plan.iter()).map(|(v, f)| state_part(v, f.kind)).collect()).unwrap_or(None);
             match parts {
               Some(parts) if parts.len() == plan.len() => {
                 let mp = drv.call("C11", json!({"op": "page", "dirs": dirs, "keys": keys, "limit": limit,
@@ -1110,7 +1154,7 @@ impl C11 {
         if let (Some(addr2), Out::Ok(all2)) = (addr2, run(&reader2, &base_req(case, &new_sort, ndocs + 6, None))) {
           let (keys2, back2) = model_keys(&plan2, &addr2, &all2);
           let st = &md["state"];
-          let parts: Option<Vec<Value>> = st["values"].as_array().map(|a| a.iter().map(state_part).collect()).unwrap_or(None);
+          let parts: Option<Vec<Value>> = st["values"].as_array().filter(|a| a.len() == plan2.len()).map(|a| a.iter().zip(plan2.iter()).map(|(v, f)| state_part(v, f.kind)).collect()).unwrap_or(None);
           if let Some(parts) = parts {
             let dirs2: Vec<bool> = plan2.iter().map(|f| f.desc).collect();
             let mp = drv.call("C11", json!({"op": "page", "dirs": dirs2, "keys": keys2, "limit": limit,
@@ -1134,7 +1178,7 @@ impl C11 {
   }
 
   /// one request whose limit covers all matches must return all of them, also for large limits
-  fn run_big(&self, _drv: &mut Driver, case: &Value, s: &mut Summary) {
+  fn run_big(&self, drv: &mut Driver, case: &Value, s: &mut Summary) {
     let n = case["docs"].as_u64().unwrap_or(0) as usize;
     let dir = scratch();
     let idx = match idx::create(dir.path(), &schema_json(), false) {
@@ -1157,6 +1201,19 @@ impl C11 {
     let out = run(&reader, &base_req(&c, &case["sort"], n + 5, None));
     s.case(case, true);
     s.count("big_limit_case");
+    // correspondence: the model's single page over the same keys (given in ascending order so
+    // that the model's insertion sort is linear; one segment, doc id = rank of the id)
+    if let Out::Ok(p) = &out {
+      let mut ks: Vec<(i64, u64)> = (0..n as u64).map(|k| ((k % 7) as i64, k)).collect();
+      ks.sort();
+      let keys: Vec<Value> = ks.iter().map(|(v, k)| json!({"parts": [v], "seg": 0, "doc": k})).collect();
+      let mp = drv.call("C11", json!({"op": "page", "dirs": [false], "keys": keys, "limit": n + 5, "cursor": null}));
+      let mids: Vec<String> = mp["resp"]["hits"].as_array().cloned().unwrap_or_default().iter().map(|h| format!("b{:06}", h[1].as_u64().unwrap_or(0))).collect();
+      if mp["class"] != json!("ok") || mids != p.ids || mp["resp"]["next"].is_null() != p.next.is_none() || mp["resp"]["total"].as_u64() != Some(p.total) {
+        s.disagree("page.large-limit", case, json!({"hits": p.ids.len(), "first": p.ids.first(), "last": p.ids.last(), "next": p.next, "total": p.total}),
+          json!({"class": mp["class"], "hits": mids.len(), "first": mids.first(), "last": mids.last(), "next": mp["resp"]["next"], "total": mp["resp"]["total"]}));
+      }
+    }
     match out {
       Out::Ok(p) => {
         if p.ids.len() != n && p.next.is_none() {
